@@ -442,6 +442,54 @@ Proof.
   intros. split; [symmetry; apply run_low | symmetry; apply doctor_low].
 Qed.
 
+(* ---- rip-cli's --provider derivation commutes with erasure ------------------------------------------ *)
+Lemma low_env_setenv_public e k v : is_public_env k = true -> low_env (setenv e k v) = setenv (low_env e) k v.
+Proof. intros P. unfold setenv, low_env. cbn [map fst snd]. rewrite P. reflexivity. Qed.
+Lemma low_env_setenv_opt_public e k v : is_public_env k = true -> low_env (setenv_opt e k v) = setenv_opt (low_env e) k v.
+Proof. intros P. destruct v; [apply low_env_setenv_public; exact P | reflexivity]. Qed.
+Lemma cli_public_env_low f e : low_env (cli_public_env f e) = cli_public_env f (low_env e).
+Proof.
+  unfold cli_public_env.
+  rewrite (low_env_setenv_opt_public _ E_FOLLOWUP _ pub_followup).
+  destruct (f_parallel f); destruct (f_stateless f);
+    repeat first [ rewrite (low_env_setenv_public _ E_PARALLEL _ pub_parallel)
+                 | rewrite (low_env_setenv_public _ E_STATELESS _ pub_stateless)
+                 | rewrite (low_env_setenv_opt_public _ E_MODEL _ pub_model)
+                 | rewrite (low_env_setenv_public _ E_ENDPOINT _ pub_endpoint) ];
+    reflexivity.
+Qed.
+Lemma provider_key_var_secret p : is_public_env (provider_key_var p) = false.
+Proof. destruct p; vm_compute; reflexivity. Qed.
+Lemma api_key_var_secret : is_public_env E_API_KEY = false.
+Proof. vm_compute. reflexivity. Qed.
+Lemma low_env_setenv e k v : low_env (setenv e k v) = setenv (low_env e) k (lowv k v).
+Proof. reflexivity. Qed.
+Lemma cli_env_low f e : cli_env f (low_env e) = option_map low_env (cli_env f e).
+Proof.
+  unfold cli_env. rewrite !getenv_low. unfold lowv at 1 2. rewrite provider_key_var_secret, api_key_var_secret.
+  destruct (getenv e (provider_key_var (f_provider f))) as [k|]; cbn [option_map over].
+  - rewrite low_env_setenv, cli_public_env_low. unfold lowv. rewrite api_key_var_secret. reflexivity.
+  - destruct (getenv e E_API_KEY) as [k|]; cbn [option_map over]; [|reflexivity].
+    rewrite low_env_setenv, cli_public_env_low. unfold lowv. rewrite api_key_var_secret. reflexivity.
+Qed.
+Lemma cli_world_low f w : cli_world f (low_world w) = option_map low_world (cli_world f w).
+Proof.
+  unfold cli_world, low_world. cbn [w_env w_layers w_misfit w_ovr]. rewrite cli_env_low.
+  destruct (cli_env f (w_env w)); reflexivity.
+Qed.
+(* `rip run --provider ..` in two worlds that differ only in secret values: both bail out, or both go on in worlds that
+   again differ only in secret values - so everything above applies to what the spawned authority stores and shows *)
+Theorem cli_provider_flags_preserve_low : forall f w1 w2,
+  low_world w1 = low_world w2 ->
+  option_map low_world (cli_world f w1) = option_map low_world (cli_world f w2).
+Proof. intros f w1 w2 L. rewrite <- !cli_world_low, L. reflexivity. Qed.
+(* the key goes from the provider's variable into the authority's RIP_OPENRESPONSES_API_KEY - and nowhere else *)
+Lemma cli_env_example :
+  cli_env (mkFlags POpenai None false false None) [(E_OPENAI, lit "sk-AAAA")]
+  = Some [(E_API_KEY, lit "sk-AAAA"); (E_ENDPOINT, lit "https://api.openai.com/v1/responses"); (E_OPENAI, lit "sk-AAAA")]
+  /\ cli_env (mkFlags POpenrouter None false false None) [(E_OPENAI, lit "sk-AAAA")] = None.
+Proof. vm_compute. split; reflexivity. Qed.
+
 (* ---- process output at start-up is a function of public variables ------------------------------ *)
 Lemma startup_warnings_low e : startup_warnings (low_env e) = startup_warnings e.
 Proof.
@@ -851,3 +899,19 @@ Definition envref_world (key : str) : world :=
           [(lit "HOME", lit "/home/u"); (lit "MY_PROVIDER_KEY", key)] no_ovr None.
 Lemma envref_world_tool_env : tool_env (envref_world (lit "sk-AAAA")) = [(lit "HOME", lit "/home/u")].
 Proof. vm_compute. reflexivity. Qed.
+
+(* rip-cli: everything above applies to what the authority spawned by `rip run --provider ..` stores and shows *)
+Theorem cli_run_noninterference : forall f fuel sc w1 w2 w1' w2' prompt initial,
+  low_world w1 = low_world w2 ->
+  cli_world f w1 = Some w1' -> cli_world f w2 = Some w2' ->
+  persisted (run fuel sc true w1' prompt initial) = persisted (run fuel sc true w2' prompt initial)
+  /\ doctor_report w1' = doctor_report w2'
+  /\ startup_warnings (w_env w1') = startup_warnings (w_env w2').
+Proof.
+  intros f fuel sc w1 w2 w1' w2' prompt initial L C1 C2.
+  pose proof (cli_provider_flags_preserve_low f w1 w2 L) as P. rewrite C1, C2 in P. cbn [option_map] in P.
+  assert (L' : low_world w1' = low_world w2') by congruence. clear P. repeat split.
+  - apply (noninterference fuel sc true w1' w2' prompt initial L').
+  - apply doctor_report_noninterference. exact L'.
+  - apply startup_output_noninterference. exact L'.
+Qed.
